@@ -408,11 +408,23 @@ namespace plan
       i2->k = BodyItem::ASSERT;
       i2->b = rel(GEQ, k + d);
       b2.push_back(i2);
+      std::string t2 = " " + btext(i2->b) + ";";
+      if (b1.size() >= 2 && b1[1]->k == BodyItem::SUBGOAL && (op.arg(3) & 4))
+      { // a goal of the same predicate in the other disjunct as well: both cost the same, so the planner takes the FIRST one (the
+        // tight one, with the goal a client may later report as failed) instead of always preferring the disjunct without a goal
+        std::string nm2 = "g" + std::to_string(m.n_formulas++);
+        t2 += " goal " + nm2 + " = new " + m.preds[b1[1]->pred].name + "();";
+        auto g2 = std::make_shared<BodyItem>();
+        g2->k = BodyItem::SUBGOAL;
+        g2->pred = b1[1]->pred;
+        g2->local = nm2;
+        b2.push_back(g2);
+      }
       dj->branches = {b1, b2};
       Stmt s;
       s.k = Stmt::DISJ;
       s.item = dj;
-      s.text = "{" + t1 + " } or { " + btext(i2->b) + "; }";
+      s.text = "{" + t1 + " } or {" + t2 + " }";
       m.stmts.push_back(s);
       ++order;
     }
